@@ -8,6 +8,7 @@ from mvf import engine_case as ec
 from mvf import lang
 from mvf import ref
 from mvf.gen import direct as gdirect
+from mvf.gen import hostile as ghostile
 from mvf.gen import joins as gjoins
 
 PROP = 'C01'
@@ -33,7 +34,19 @@ RULE = ('generated definitions: direct DAGs (forks, full joins, guards on '
         'received and the evaluated output must be equal.  Outside the '
         'fragment (racy commands, partial joins, merges) only the universal '
         'monitors decide.  Distinct = (program shape, outcome table, '
-        'interleaving).')
+        'interleaving).  Hostile-values family: every position of the '
+        'language whose evaluated value the engine uses as a number, a '
+        'boolean, a collection, a name or a dictionary (retry count / delay '
+        '/ continue-on / break-on, wait-before, wait-after, timeout, '
+        'concurrency, with-items collections, pause-before, fail-on, task '
+        'and sub-workflow input, dynamic action / workflow name, '
+        'keep-result, safe-rerun, target, guards, published / output '
+        'values, inline parameters, the same in task-defaults and on a '
+        'join) receives, through workflow input (YAQL and Jinja), the '
+        'environment, a published variable or the result of an earlier '
+        'task, values of every JSON type, at the borders of the numeric '
+        'domain and far outside it; judged by the universal monitors only '
+        '(final state reached, declared errors only).')
 ASSUMPTIONS = [
     'single engine process: atomic steps are whole transactions',
     'when a fail / succeed command or a failing guard ends the workflow '
@@ -99,13 +112,22 @@ def cases(seed, tier):
     for i in range(n_prog):
         prng = random.Random(rng.getrandbits(64))
         fam = ['dag', 'dag', 'cmd', 'bad', 'defaults', 'joinshape', 'loop',
-               'reverse', 'wild', 'dag'][i % 10]
+               'reverse', 'wild', 'dag', 'hostile'][i % 11]
         c = {'family': fam, 'uuid_seed': prng.randint(0, 10 ** 6),
              'pseed': prng.randint(0, 10 ** 6),
              'scheduler': prng.choice(['legacy', 'default']),
              'tables': 3 if tier == 'quick' else 4,
              'orders': 3 if tier == 'quick' else 5}
-        if fam == 'loop':
+        if fam == 'hostile':
+            # one typed position, every way a value can reach it, a sample
+            # of hostile values
+            c['template'] = ghostile.NAMES[(i // 11) % len(ghostile.NAMES)]
+            c['sources'] = prng.sample(ghostile.SOURCES,
+                                       2 if tier == 'quick' else 4)
+            k = 8 if tier == 'quick' else 16
+            c['values'] = sorted(prng.sample(range(len(ghostile.VALUES)), k))
+            c['text'] = ''
+        elif fam == 'loop':
             c['text'], c['input'] = loop_program(prng)
             c['wf'] = 'wf'
             c['task_names'] = ['t0', 'body', 'check', 'done', 'side']
@@ -142,6 +164,8 @@ def run_case(case):
            'monitor_evaluations': {'reference': 0, 'reference-skipped': 0},
            'interleavings': [], 'sample': None}
     prng = random.Random(case['pseed'])
+    if case['family'] == 'hostile':
+        return run_hostile(case, res, prng)
     wf = lang.load(case['text'])[case['wf']]
     # the task-defaults handlers never fail: 'tdh' failing into on-complete
     # 'tdc' failing into on-error 'tdh' ... is a definition that loops
@@ -228,6 +252,74 @@ def run_case(case):
     if case.get('_trace') and run is not None:
         res['trace'] = ec.trace_lines(run)
     return res
+
+
+def run_hostile(case, res, prng):
+    """Universal monitors only: the run must end in a final state and
+    nothing but declared errors may leave an entry point, whatever value
+    reaches the typed position."""
+    name = case['template']
+    for source in case['sources']:
+        text, failing = ghostile.build(name, source)
+        for vi in case['values']:
+            v = ghostile.VALUES[vi]
+            if name.startswith('retry-count') and isinstance(v, (int, float)) \
+                    and not isinstance(v, bool) and v > 50:
+                # that many attempts are what the definition asks for
+                continue
+            outcomes = [{'t': n, 'outcome': ['err', 'E-' + n]}
+                        for n in failing]
+            start = {'wf': 'wf', 'input': {}}
+            if source in ('input', 'input-jinja'):
+                start['input'] = {'v': v}
+            elif source == 'env':
+                start['params'] = {'env': {'v': v}}
+            else:
+                outcomes.append({'t': 't0', 'outcome': ['ok', v]})
+            strat = prng.choice([{'name': 'fifo'}, {'name': 'random'},
+                                 {'name': 'lifo'}])
+            strat = dict(strat, seed=prng.randint(0, 10 ** 6))
+            c = {'definitions': [{'kind': 'wf', 'text': ghostile.SUB},
+                                 {'kind': 'wf', 'text': text}],
+                 'start': start, 'outcomes': outcomes, 'strategy': strat,
+                 'scheduler': case['scheduler'],
+                 'uuid_seed': case['uuid_seed'], 'features': ['hostile']}
+            run = ec.execute(c, auto_resume=True)
+            res['executions'] += 1
+            ec.merge_counts(res['events'], run.events)
+            ec.merge_counts(res['monitor_evaluations'], run.mon_evals)
+            res['interleavings'].append(run.ihash)
+            k_ = 'HOSTILE_POSITION:' + name
+            res['events'][k_] = res['events'].get(k_, 0) + 1
+            if run.inconclusive:
+                res['inconclusive'] = run.inconclusive
+                continue
+            roots = [x for x in run.rows['wf'].values()
+                     if not x.get('task_execution_id')]
+            k_ = 'HOSTILE_END:%s' % (roots[0]['state'] if roots else None)
+            res['events'][k_] = res['events'].get(k_, 0) + 1
+            desc = {'family': 'hostile', 'template': name, 'source': source,
+                    'value': repr(v)[:80], 'value_class': value_class(v),
+                    'strategy': strat, 'scheduler': case['scheduler']}
+            for v_ in run.violations:
+                res['violations'].append(dict(v_, case=desc,
+                                              hostile=[name,
+                                                       value_class(v)]))
+            res['keys'].append(['hostile', name, source, vi, run.ihash])
+            if res['sample'] is None and roots:
+                res['sample'] = {'definition': text, 'case': desc,
+                                 'engine': run.state_nf}
+    return res
+
+
+def value_class(v):
+    if isinstance(v, bool):
+        return 'bool'
+    if isinstance(v, (int, float)):
+        return 'huge-number' if abs(v) >= 10 ** 11 else 'number'
+    if v is None:
+        return 'null'
+    return type(v).__name__
 
 
 def gshape(text):
